@@ -29,7 +29,7 @@ func (r *ReAST) MarshalJSON() ([]byte, error) {
 		return json.Marshal(map[string]any{"t": r.T, "set": set, "neg": r.Neg})
 	case "cat", "alt":
 		return json.Marshal(map[string]any{"t": r.T, "a": r.A, "b": r.B})
-	case "star", "plus", "opt", "grp":
+	case "star", "plus", "opt", "grp", "ci":
 		return json.Marshal(map[string]any{"t": r.T, "a": r.A})
 	case "cap":
 		return json.Marshal(map[string]any{"t": r.T, "name": r.N, "a": r.A})
@@ -79,6 +79,8 @@ func (r *ReAST) Text() string {
 		return "(?P<" + S(r.N) + ">" + r.A.Text() + ")"
 	case "grp":
 		return "(" + r.A.Text() + ")"
+	case "ci":
+		return "(?i)" + r.A.Text()
 	case "bol":
 		return "^"
 	case "eol":
